@@ -31,7 +31,9 @@ class Include(DirectivePlugin):
         dest = os.path.join(os.path.dirname(source_file), relpath)
         dest = os.path.normpath(dest)
 
-        if dest == source_file:
+        # the files that are being included right now, outermost first
+        including = state.env.get("__including__", [])
+        if dest == source_file or dest in including:
             return {
                 "type": "block_error",
                 "raw": "Could not include self: " + relpath,
@@ -53,6 +55,7 @@ class Include(DirectivePlugin):
         if ext in {".md", ".markdown", ".mkd"}:
             new_state = block.state_cls()
             new_state.env["__file__"] = dest
+            new_state.env["__including__"] = including + [source_file]
             new_state.process(content)
             block.parse(new_state)
             return new_state.tokens
